@@ -131,7 +131,13 @@ _PROXY_NAMES = ("AbsMotorControl", "AbsPowertrain", "AbsRule", "AbsStop", "ElemR
 
 def proxy_caused(e):
     msg = str(e)
-    return any(f"'{n}'" in msg for n in _PROXY_NAMES)
+    if not any(f"'{n}'" in msg for n in _PROXY_NAMES):
+        return False
+    import re
+    m = re.search(r"unsupported operand type\(s\) for [^:]+: '(\w+)' and '(\w+)'", msg)
+    if m and "NoneType" in m.groups():
+        return False          # None combined with a number/quantity fails in the real code just the same
+    return True
 
 
 def call(fn, *a, **k):
